@@ -23,8 +23,16 @@ fn is_removable_character(c: char) -> bool {
 }
 
 fn skip_trailing_characteres(text: &str) -> Option<usize> {
-    for (index, c) in text.chars().rev().enumerate() {
-        if !is_removable_character(c) {
+    let chars: Vec<char> = text.chars().collect();
+    for (index, c) in chars.iter().rev().enumerate() {
+        if !is_removable_character(*c) {
+            return Some(index);
+        }
+        // A removable character preceded by an odd number of backslashes is
+        // the second half of a `quoted-pair`, so it is part of the value
+        let pos = chars.len() - 1 - index;
+        let backslashes = chars[..pos].iter().rev().take_while(|c| **c == '\\').count();
+        if backslashes % 2 == 1 {
             return Some(index);
         }
     }
